@@ -249,6 +249,68 @@ theorem applyChanges_getChanges (latest desired buf : Buf) (offset off0 n len : 
       omega
     omega
 
+theorem applyChanges_append (len off : Nat) : ∀ (L1 L2 : List SliceChange) (buf : Buf),
+    applyChanges len off buf (L1 ++ L2) =
+      match applyChanges len off buf L1 with
+      | .ok b => applyChanges len off b L2
+      | .error e => .error e
+  | [], L2, buf => by simp [applyChanges]
+  | ch :: L1, L2, buf => by
+    simp only [List.cons_append, applyChanges]
+    split
+    · rfl
+    · split
+      · rfl
+      · exact applyChanges_append len off L1 L2 _
+
+/-- the stack part of `collect_rollback_data` + `rollback` in the repaired shape: common prefix diffed against the
+current stack, the missing tail diffed against zeroes; applied to the zero-extended current stack it yields the
+desired stack on `[0, sp)` -/
+theorem stackChanges_fixed_apply (cur desired : Buf) (curLen sp : Nat) :
+    let common := min sp curLen
+    let stack1 : Buf := if sp > curLen then resize0 cur curLen else cur
+    ∃ st2, applyChanges sp 0 stack1
+        (getChanges cur desired 0 common ++
+          (if common < sp then getChanges (fun _ => 0) (fun i => desired (common + i)) common (sp - common) else [])) = .ok st2 ∧
+      ∀ i, i < sp → st2 i = desired i := by
+  intro common stack1
+  have hc : common ≤ sp ∧ common ≤ curLen := by simp only [common]; omega
+  have h1buf : ∀ i, i < common → stack1 (0 - 0 + i) = cur i := by
+    intro i hi
+    simp only [stack1, Nat.sub_self, Nat.zero_add]
+    split
+    · simp only [resize0]; rw [if_pos (by omega)]
+    · rfl
+  obtain ⟨sta, hsta, hsta1, hsta2⟩ := applyChanges_getChanges cur desired stack1 0 0 common sp (Nat.le_refl _) (by omega) h1buf
+  rw [applyChanges_append, hsta]
+  dsimp only
+  by_cases hlt : common < sp
+  · rw [if_pos hlt]
+    have hcl : common = curLen := by simp only [common] at hlt ⊢; omega
+    have h2buf : ∀ i, i < sp - common → sta (common - 0 + i) = (fun _ => (0 : UInt8)) i := by
+      intro i hi
+      rw [hsta2 (common - 0 + i) (Or.inr (by omega))]
+      simp only [stack1]
+      rw [if_pos (by omega)]
+      simp only [resize0]
+      rw [if_neg (by omega)]
+    obtain ⟨stb, hstb, hstb1, hstb2⟩ := applyChanges_getChanges (fun _ => 0) (fun i => desired (common + i)) sta common 0 (sp - common) sp
+      (Nat.zero_le _) (by omega) h2buf
+    refine ⟨stb, hstb, ?_⟩
+    intro i hi
+    by_cases hic : i < common
+    · rw [hstb2 i (Or.inl (by omega))]
+      have := hsta1 i hic
+      simpa using this
+    · have := hstb1 (i - common) (by omega)
+      rw [show common - 0 + (i - common) = i by omega, show common + (i - common) = i by omega] at this
+      exact this
+  · rw [if_neg hlt]
+    refine ⟨sta, rfl, ?_⟩
+    intro i hi
+    have := hsta1 i (by omega)
+    simpa using this
+
 /-- `PartialEq for MemoryInstance` decides exactly "same extents and same accessible contents" -/
 theorem eqAccessible_iff {M : Nat} {a b : Mem} {fa fb : Flat} (ha : Sim M a fa) (hb : Sim M b fb) :
     a.eqAccessible M b = true ↔ fa.sameAccessible M fb := by
@@ -281,12 +343,14 @@ theorem eqAccessible_iff {M : Nat} {a b : Mem} {fa fb : Flat} (ha : Sim M a fa) 
           show b.hp - (M - b.heapLen) + i = a.hp + i - (M - b.heapLen) by omega]
       exact this
 
-/-- `collect_rollback_data` + `rollback` against the specification "become the snapshot" -/
+/-- `collect_rollback_data` + `rollback` against the specification "become the snapshot" (both code shapes) -/
 theorem rollback_refines {M : Nat} {cur snap : Mem} {fc fs : Flat} (hc : Sim M cur fc) (hs : Sim M snap fs) :
     match cur.collectRollbackData M snap with
-    | .error e => e = .RustPanic ∧ ¬ fc.sameAccessible M fs ∧ (fs.hp < fc.hp ∨ fs.sl > fc.sl)
+    | .error e => e = .RustPanic ∧ ¬ fc.sameAccessible M fs ∧
+        (fs.hp < fc.hp ∨ (Gen.rollbackSlicesCurrentStackToSp = true ∧ fs.sl > fc.sl))
     | .ok none => fc.sameAccessible M fs
-    | .ok (some d) => ¬ fc.sameAccessible M fs ∧ ¬ (fs.hp < fc.hp ∨ fs.sl > fc.sl) ∧
+    | .ok (some d) => ¬ fc.sameAccessible M fs ∧
+        ¬ (fs.hp < fc.hp ∨ (Gen.rollbackSlicesCurrentStackToSp = true ∧ fs.sl > fc.sl)) ∧
         ∃ m', cur.rollback M d = .ok m' ∧ Sim M m' fs := by
   have heq := eqAccessible_iff hc hs
   obtain ⟨⟨c1, c2, c3, c4⟩, csl, chp, cst, che⟩ := hc
@@ -300,37 +364,59 @@ theorem rollback_refines {M : Nat} {cur snap : Mem} {fc fs : Flat} (hc : Sim M c
     by_cases e2 : snap.hp < cur.hp
     · simp only [e2, if_true]
       exact ⟨trivial, hne, Or.inl (by omega)⟩
-    · by_cases e3 : snap.stackLen > cur.stackLen
-      · simp only [e2, e3, if_true, if_false]
-        exact ⟨trivial, hne, Or.inr (by omega)⟩
-      · have e4 : ¬ snap.hp < M - cur.heapLen := by omega
-        have e5 : ¬ snap.hp - (M - cur.heapLen) > cur.heapLen := by omega
-        have e6 : ¬ snap.hp < M - snap.heapLen := by omega
-        have e7 : ¬ snap.hp - (M - snap.heapLen) > snap.heapLen := by omega
-        simp only [e2, e3, e4, e5, e6, e7, if_false]
-        refine ⟨hne, by omega, ?_⟩
-        unfold Mem.rollback
-        have e8 : ¬ snap.stackLen > cur.stackLen := e3
-        simp only [e8, e2, if_false, Mem.heapOffset]
-        have hn : min (cur.heapLen - (snap.hp - (M - cur.heapLen))) (snap.heapLen - (snap.hp - (M - snap.heapLen))) = M - snap.hp := by omega
-        rw [hn]
-        obtain ⟨st2, hst2, hst2a, _⟩ := applyChanges_getChanges cur.stack snap.stack cur.stack 0 0 snap.stackLen snap.stackLen
-          (Nat.le_refl _) (by omega) (by intro i _; simp)
-        obtain ⟨hp2, hhp2, hhp2a, _⟩ := applyChanges_getChanges (fun i => cur.heap (snap.hp - (M - cur.heapLen) + i))
-          (fun i => snap.heap (snap.hp - (M - snap.heapLen) + i)) cur.heap snap.hp (M - cur.heapLen) (M - snap.hp) cur.heapLen
-          (by omega) (by omega) (by intro i _; rfl)
-        rw [hst2, hhp2]
-        refine ⟨_, rfl, ⟨c1, by dsimp only; omega, s3, s4⟩, ssl, shp, ?_, ?_⟩ <;> dsimp only
-        · intro a ha
-          have := hst2a a ha
-          simp only [Nat.sub_self, Nat.zero_add] at this
-          rw [this]
-          exact sst a ha
-        · intro a ha ha'
-          have := hhp2a (a - snap.hp) (by omega)
-          rw [show snap.hp - (M - cur.heapLen) + (a - snap.hp) = a - (M - cur.heapLen) by omega,
-              show snap.hp - (M - snap.heapLen) + (a - snap.hp) = a - (M - snap.heapLen) by omega] at this
-          rw [this]
-          exact she a ha ha'
+    · have e4 : ¬ snap.hp < M - cur.heapLen := by omega
+      have e5 : ¬ snap.hp - (M - cur.heapLen) > cur.heapLen := by omega
+      have e6 : ¬ snap.hp < M - snap.heapLen := by omega
+      have e7 : ¬ snap.hp - (M - snap.heapLen) > snap.heapLen := by omega
+      have hn : min (cur.heapLen - (snap.hp - (M - cur.heapLen))) (snap.heapLen - (snap.hp - (M - snap.heapLen))) = M - snap.hp := by omega
+      obtain ⟨hp2, hhp2, hhp2a, _⟩ := applyChanges_getChanges (fun i => cur.heap (snap.hp - (M - cur.heapLen) + i))
+        (fun i => snap.heap (snap.hp - (M - snap.heapLen) + i)) cur.heap snap.hp (M - cur.heapLen) (M - snap.hp) cur.heapLen
+        (by omega) (by omega) (by intro i _; rfl)
+      -- the stack part, in whichever shape the code has
+      have hstack : ¬ (Gen.rollbackSlicesCurrentStackToSp = true ∧ snap.stackLen > cur.stackLen) →
+          ∃ st2, applyChanges snap.stackLen 0 (if snap.stackLen > cur.stackLen then resize0 cur.stack cur.stackLen else cur.stack)
+            (if Gen.rollbackSlicesCurrentStackToSp = true then getChanges cur.stack snap.stack 0 snap.stackLen
+             else getChanges cur.stack snap.stack 0 (min snap.stackLen cur.stackLen) ++
+               (if min snap.stackLen cur.stackLen < snap.stackLen then
+                  getChanges (fun _ => 0) (fun i => snap.stack (min snap.stackLen cur.stackLen + i)) (min snap.stackLen cur.stackLen)
+                    (snap.stackLen - min snap.stackLen cur.stackLen)
+                else [])) = .ok st2 ∧ ∀ i, i < snap.stackLen → st2 i = snap.stack i := by
+        intro hnr
+        cases hflag : Gen.rollbackSlicesCurrentStackToSp with
+        | true =>
+          have e3 : ¬ snap.stackLen > cur.stackLen := fun h => hnr ⟨hflag, h⟩
+          simp only [e3, if_false, if_true]
+          obtain ⟨st2, hst2, hst2a, _⟩ := applyChanges_getChanges cur.stack snap.stack cur.stack 0 0 snap.stackLen snap.stackLen
+            (Nat.le_refl _) (by omega) (by intro i _; simp)
+          exact ⟨st2, hst2, fun i hi => by have := hst2a i hi; simpa using this⟩
+        | false =>
+          simp only [Bool.false_eq_true, if_false]
+          exact stackChanges_fixed_apply cur.stack snap.stack cur.stackLen snap.stackLen
+      by_cases e3 : Gen.rollbackSlicesCurrentStackToSp = true ∧ snap.stackLen > cur.stackLen
+      · have : (Gen.rollbackSlicesCurrentStackToSp && decide (snap.stackLen > cur.stackLen)) = true := by
+          simp [e3.1, e3.2]
+        simp only [e2, this, if_true, if_false]
+        exact ⟨trivial, hne, Or.inr ⟨e3.1, by omega⟩⟩
+      · have : ¬ ((Gen.rollbackSlicesCurrentStackToSp && decide (snap.stackLen > cur.stackLen)) = true) := by
+          simp only [Bool.and_eq_true, decide_eq_true_eq]; exact e3
+        simp only [e2, this, e4, e5, e6, e7, if_false]
+        refine ⟨hne, ?_, ?_⟩
+        · rintro (h | ⟨h1, h2⟩)
+          · omega
+          · exact e3 ⟨h1, by omega⟩
+        · obtain ⟨st2, hst2, hst2a⟩ := hstack e3
+          unfold Mem.rollback
+          simp only [e2, if_false, Mem.heapOffset]
+          rw [hn, hst2, hhp2]
+          refine ⟨_, rfl, ⟨c1, by dsimp only; omega, s3, s4⟩, ssl, shp, ?_, ?_⟩ <;> dsimp only
+          · intro a ha
+            rw [hst2a a ha]
+            exact sst a ha
+          · intro a ha ha'
+            have := hhp2a (a - snap.hp) (by omega)
+            rw [show snap.hp - (M - cur.heapLen) + (a - snap.hp) = a - (M - cur.heapLen) by omega,
+                show snap.hp - (M - snap.heapLen) + (a - snap.hp) = a - (M - snap.heapLen) by omega] at this
+            rw [this]
+            exact she a ha ha'
 
 end FuelVerif.Memory
